@@ -6,6 +6,7 @@ import (
 	"fmt"
 	"io"
 	"net"
+	"os"
 	"strconv"
 	"strings"
 	"sync"
@@ -50,38 +51,126 @@ func c11rDom(id int) string {
 }
 
 // ---- scripted next hop ----
+//
+// What the next hop does with a command (MAIL: c11Backend.mailMode; DATA: dataMode; RCPT: chosen by the local
+// part of the recipient address, so that it is a function of the command alone also in concurrent runs).
+
+const (
+	c11OK    int32 = iota
+	c11Rej         // 550 / 554 reply, connection stays usable
+	c11F421        // 421 reply, the server keeps the connection open
+	c11F421c       // 421 reply, then the server closes the connection
+	c11Drop        // connection closed without a reply
+	c11Tmo         // no reply: the command times out on the client side (see c11Conn)
+)
+
+var c11FailNames = map[string]int32{"rej": c11Rej, "421": c11F421, "421c": c11F421c, "drop": c11Drop, "tmo": c11Tmo}
 
 type c11Backend struct {
-	rejectMail atomic.Bool
+	mailMode   atomic.Int32
 	rejectRcpt atomic.Bool
-	rejectData atomic.Bool
+	dataMode   atomic.Int32
+	connMode   atomic.Int32 // c11Drop / c11Tmo: the next dialled connection is dead before the greeting
 	mails      atomic.Int64
 }
 
-type c11Session struct{ be *c11Backend }
+type c11Session struct {
+	be *c11Backend
+	c  *smtp.Conn
+}
 
-func (be *c11Backend) NewSession(*smtp.Conn) (smtp.Session, error) { return &c11Session{be}, nil }
-func (s *c11Session) Reset()                                       {}
-func (s *c11Session) Logout() error                                { return nil }
+func (be *c11Backend) NewSession(c *smtp.Conn) (smtp.Session, error) { return &c11Session{be, c}, nil }
+func (s *c11Session) Reset()                                         {}
+func (s *c11Session) Logout() error                                  { return nil }
+
+// fail answers the current command the way `mode` says. c11Tmo never gets here (the client side swallows the
+// command), c11OK returns nil.
+func (s *c11Session) fail(mode int32, code int, ec smtp.EnhancedCode, what string) error {
+	switch mode {
+	case c11Rej:
+		return &smtp.SMTPError{Code: code, EnhancedCode: ec, Message: "c11: " + what + " refused by the next hop"}
+	case c11F421:
+		return &smtp.SMTPError{Code: 421, EnhancedCode: smtp.EnhancedCode{4, 3, 2}, Message: "c11: 421 service not available, closing transmission channel"}
+	case c11F421c:
+		nc := s.c.Conn()
+		nc.Write([]byte("421 4.3.2 c11: 421 service not available, closing transmission channel\r\n"))
+		nc.Close()
+		return errors.New("c11: connection closed")
+	case c11Drop:
+		s.c.Conn().Close()
+		return errors.New("c11: connection dropped")
+	}
+	return nil
+}
+
 func (s *c11Session) Mail(from string, opts *smtp.MailOptions) error {
 	s.be.mails.Add(1)
-	if s.be.rejectMail.Load() {
-		return &smtp.SMTPError{Code: 550, EnhancedCode: smtp.EnhancedCode{5, 7, 1}, Message: "c11: sender refused by the next hop"}
-	}
-	return nil
+	return s.fail(s.be.mailMode.Load(), 550, smtp.EnhancedCode{5, 7, 1}, "sender")
 }
+
+// c11RcptMode: local part "rcpt<kind>" (kind as in c11FailNames) scripts the answer to that RCPT.
+func c11RcptMode(to string) int32 {
+	local := to
+	if i := strings.IndexByte(to, '@'); i >= 0 {
+		local = to[:i]
+	}
+	return c11FailNames[strings.TrimPrefix(local, "rcpt")]
+}
+
 func (s *c11Session) Rcpt(to string, _ *smtp.RcptOptions) error {
-	if s.be.rejectRcpt.Load() {
-		return &smtp.SMTPError{Code: 550, EnhancedCode: smtp.EnhancedCode{5, 1, 1}, Message: "c11: recipient refused by the next hop"}
+	mode := c11RcptMode(to)
+	if mode == c11OK && s.be.rejectRcpt.Load() {
+		mode = c11Rej
 	}
-	return nil
+	return s.fail(mode, 550, smtp.EnhancedCode{5, 1, 1}, "recipient")
 }
+
 func (s *c11Session) Data(r io.Reader) error {
+	mode := s.be.dataMode.Load()
+	if mode == c11Drop || mode == c11F421c {
+		return s.fail(mode, 0, smtp.EnhancedCode{}, "")
+	}
 	_, err := io.Copy(io.Discard, r)
-	if s.be.rejectData.Load() {
-		return &smtp.SMTPError{Code: 554, EnhancedCode: smtp.EnhancedCode{5, 6, 0}, Message: "c11: message refused by the next hop"}
+	if mode != c11OK {
+		return s.fail(mode, 554, smtp.EnhancedCode{5, 6, 0}, "message")
 	}
 	return err
+}
+
+// c11Conn is the connection the target dials. A command the script lets time out is swallowed here and every
+// later read returns at once the error a passed read deadline produces (no wall-clock wait, same error value:
+// *net.OpError wrapping os.ErrDeadlineExceeded, Timeout() == true); the next hop never answers again, as a
+// hung server would.
+type c11Conn struct {
+	net.Conn
+	be   *c11Backend
+	dead atomic.Int32 // 0 alive, c11Tmo: reads time out, c11Drop: reads see EOF
+}
+
+func (c *c11Conn) Write(p []byte) (int, error) {
+	if c.dead.Load() == 0 {
+		line := string(p)
+		switch {
+		case strings.HasPrefix(line, "RCPT TO:<rcpttmo@"),
+			strings.HasPrefix(line, "MAIL FROM:") && c.be.mailMode.Load() == c11Tmo,
+			strings.HasPrefix(line, "DATA\r\n") && c.be.dataMode.Load() == c11Tmo:
+			c.dead.Store(c11Tmo)
+		}
+	}
+	if c.dead.Load() != 0 {
+		return len(p), nil
+	}
+	return c.Conn.Write(p)
+}
+
+func (c *c11Conn) Read(p []byte) (int, error) {
+	switch c.dead.Load() {
+	case c11Tmo:
+		return 0, &net.OpError{Op: "read", Net: "tcp", Source: c.Conn.LocalAddr(), Addr: c.Conn.RemoteAddr(), Err: os.ErrDeadlineExceeded}
+	case c11Drop:
+		return 0, io.EOF
+	}
+	return c.Conn.Read(p)
 }
 
 var c11SrvOnce sync.Once
@@ -118,6 +207,23 @@ func c11Zones() map[string]mockdns.Zone {
 func c11Target(t *testing.T, g *limits.Group) *Target {
 	tgt := testTarget(t, c11Zones(), nil, nil)
 	tgt.limits = g
+	tgt.allowSecOverride = true
+	be := c11Server(t)
+	dial := tgt.dialer
+	tgt.dialer = func(ctx context.Context, network, addr string) (net.Conn, error) {
+		nc, err := dial(ctx, network, addr)
+		if err != nil {
+			return nil, err
+		}
+		c := &c11Conn{Conn: nc, be: be}
+		if m := be.connMode.Load(); m == c11Drop || m == c11Tmo {
+			c.dead.Store(m)
+			if m == c11Drop {
+				nc.Close()
+			}
+		}
+		return c, nil
+	}
 	tgt.connectTimeout = 5 * time.Second
 	tgt.commandTimeout = 20 * time.Second
 	tgt.submissionTimeout = 20 * time.Second
@@ -129,6 +235,7 @@ type c11Deliv struct {
 	ip    int
 	dom   int
 	dests map[int]bool
+	rt    bool // REQUIRETLS delivery
 }
 
 type c11RemCase struct {
@@ -172,9 +279,44 @@ func c11rErr(err error, cancelled bool) string {
 		return "mail-rejected"
 	case strings.Contains(err.Error(), "c11: recipient refused"):
 		return "rcpt-rejected"
+	case strings.Contains(err.Error(), "c11: 421"):
+		return "reply-421"
+	case c11rNetTimeout(err):
+		return "net-timeout"
 	default:
 		return "other-error"
 	}
+}
+
+func c11rNetTimeout(err error) bool {
+	var ne net.Error
+	return errors.As(err, &ne) && ne.Timeout()
+}
+
+// c11Note: the optional 6th field of an `a` op → (mail mode when mo = 0, local part of the recipient, conn mode
+// when co = 0 on a reachable domain). ok = false: unknown note.
+func c11Note(note string) (mail int32, local string, conn int32, ok bool) {
+	mail, local = c11Rej, "rcpt"
+	switch {
+	case note == "":
+	case note == "rcptrej": // historical spelling: RCPT refused through the backend flag
+	case strings.HasPrefix(note, "rcpt"):
+		if c11FailNames[note[4:]] == 0 {
+			return 0, "", 0, false
+		}
+		local = note
+	case strings.HasPrefix(note, "mail"):
+		if mail = c11FailNames[note[4:]]; mail == 0 {
+			return 0, "", 0, false
+		}
+	case note == "conndrop":
+		conn = c11Drop
+	case note == "conntmo":
+		conn = c11Tmo
+	default:
+		return 0, "", 0, false
+	}
+	return mail, local, conn, true
 }
 
 func c11rChain(err error, what string) bool {
@@ -199,7 +341,19 @@ func (c *c11RemCase) exec(op string) bool {
 		return true
 	}
 	switch f[0] {
+	case "p":
+		// conn_reuse_limit of the target: 0 = no connection goes back to the pool (testTarget's value)
+		if len(f) != 2 || len(c.ds) != 0 {
+			return false
+		}
+		c.tgt.connReuseLimit = id
+		c.out.Stat("rem:pool:" + f[1])
 	case "s":
+		// s.id.ip.dom[.so|.rt]: so = "TLS-Required: No" honoured (connections are never pooled), rt = REQUIRETLS
+		// (the plain-text next hop is refused before any destination limit is taken: co = 0 for every recipient)
+		if len(f) != 4 && !(len(f) == 5 && (f[4] == "so" || f[4] == "rt")) {
+			return false
+		}
 		ip, _ := strconv.Atoi(f[2])
 		dom, _ := strconv.Atoi(f[3])
 		from := "sender@" + c11rDom(dom)
@@ -208,6 +362,12 @@ func (c *c11RemCase) exec(op string) bool {
 		}
 		meta := &module.MsgMetadata{ID: fmt.Sprintf("c11-%d", id), DontTraceSender: true,
 			Conn: &module.ConnState{RemoteAddr: &net.TCPAddr{IP: net.IPv4(127, 0, 0, byte(ip)), Port: 1234}}}
+		flag := ""
+		if len(f) == 5 {
+			flag = f[4]
+		}
+		meta.TLSRequireOverride = flag == "so"
+		meta.SMTPOpts.RequireTLS = flag == "rt"
 		var d module.Delivery
 		err, cancelled, p := vlim.RunCtx(context.Background(), func(ctx context.Context) error {
 			var err error
@@ -217,9 +377,9 @@ func (c *c11RemCase) exec(op string) bool {
 		if panicked(p, "Target.Start") {
 			return false
 		}
-		c.out.Stat("rem:start:" + c11rErr(err, cancelled))
+		c.out.Stat("rem:start:" + flag + ":" + c11rErr(err, cancelled))
 		if err == nil {
-			c.ds[id] = &c11Deliv{d: d, ip: ip, dom: dom, dests: map[int]bool{}}
+			c.ds[id] = &c11Deliv{d: d, ip: ip, dom: dom, dests: map[int]bool{}, rt: flag == "rt"}
 			c.bump(0, 0, 1)
 			c.bump(1, ip, 1)
 			c.bump(2, dom, 1)
@@ -230,15 +390,42 @@ func (c *c11RemCase) exec(op string) bool {
 			return false
 		}
 		dd, _ := strconv.Atoi(f[2])
-		c.be.rejectMail.Store(f[4] == "0")
-		c.be.rejectRcpt.Store(len(f) > 5 && f[5] == "rcptrej")
+		note := ""
+		if len(f) > 5 {
+			note = f[5]
+		}
+		mail, local, connMode, known := c11Note(note)
+		if !known || len(f) < 5 {
+			return false
+		}
+		if f[4] != "0" {
+			mail = c11OK
+		}
+		if f[3] != "0" {
+			connMode = c11OK
+		}
+		c.be.mailMode.Store(mail)
+		c.be.connMode.Store(connMode)
+		c.be.rejectRcpt.Store(note == "rcptrej")
+		connAge := "fresh"
+		if rd, ok := dl.d.(*remoteDelivery); ok && rd.connections[c11rDom(dd)] != nil {
+			connAge = "reused"
+		}
 		err, cancelled, p := vlim.RunCtx(context.Background(), func(ctx context.Context) error {
-			return dl.d.AddRcpt(ctx, "rcpt@"+c11rDom(dd), smtp.RcptOptions{})
+			return dl.d.AddRcpt(ctx, local+"@"+c11rDom(dd), smtp.RcptOptions{})
 		})
+		c.be.connMode.Store(c11OK)
 		if panicked(p, "AddRcpt") {
 			return false
 		}
 		c.out.Stat("rem:addrcpt:" + c11rErr(err, cancelled))
+		if rd, ok := dl.d.(*remoteDelivery); ok && connAge == "fresh" && rd.connections[c11rDom(dd)] != nil &&
+			rd.connections[c11rDom(dd)].transactions > 0 {
+			connAge = "pooled"
+		}
+		if note != "" {
+			c.out.Stat("rem:addrcpt-script:" + note + ":" + connAge + ":" + c11rErr(err, cancelled))
+		}
 		// the connection (and with it the destination permit) is kept when only RCPT was refused
 		if (err == nil || c11rErr(err, cancelled) == "rcpt-rejected") && !dl.dests[dd] {
 			dl.dests[dd] = true
@@ -249,32 +436,50 @@ func (c *c11RemCase) exec(op string) bool {
 		if dl == nil {
 			return false
 		}
-		how := "abort"
+		// x.id.how[.end]: how = abort | commit | body<kind> (bodyfail = bodyrej); Body is called for every how
+		// but abort (for commit only when a recipient was accepted); end = commit | abort
+		how, end := "abort", ""
 		if len(f) > 2 {
 			how = f[2]
 		}
-		c.be.rejectData.Store(how == "bodyfail")
+		if len(f) > 3 {
+			end = f[3]
+		}
+		dataMode, body := c11OK, false
+		switch {
+		case how == "abort":
+		case how == "commit":
+			body = len(dl.dests) > 0
+			if end == "" {
+				end = "commit"
+			}
+		case how == "bodyfail":
+			dataMode, body = c11Rej, true
+		case strings.HasPrefix(how, "body") && c11FailNames[how[4:]] != 0:
+			dataMode, body = c11FailNames[how[4:]], true
+		default:
+			return false
+		}
+		if end != "" && end != "commit" && end != "abort" {
+			return false
+		}
+		c.be.dataMode.Store(dataMode)
 		_, _, p := vlim.RunCtx(context.Background(), func(ctx context.Context) error {
-			if how == "bodyfail" {
+			if body {
 				hdr := textproto.Header{}
 				hdr.Add("Subject", "c11")
 				dl.d.Body(ctx, hdr, buffer.MemoryBuffer{Slice: []byte("body\r\n")})
-				return dl.d.Abort(ctx)
 			}
-			if how == "commit" {
-				hdr := textproto.Header{}
-				hdr.Add("Subject", "c11")
-				if len(dl.dests) > 0 {
-					dl.d.Body(ctx, hdr, buffer.MemoryBuffer{Slice: []byte("body\r\n")})
-				}
+			if end == "commit" {
 				return dl.d.Commit(ctx)
 			}
 			return dl.d.Abort(ctx)
 		})
+		c.be.dataMode.Store(c11OK)
 		if panicked(p, "Commit/Abort") {
 			return false
 		}
-		c.out.Stat("rem:end:" + how)
+		c.out.Stat("rem:end:" + how + ":" + end)
 		for dd := range dl.dests {
 			c.bump(3, dd, -1)
 		}
@@ -314,6 +519,23 @@ func c11RemRun(out *vh.Out, t *testing.T, cfg vlim.Cfg, r *vh.Rng, fixed []strin
 		n := 8 + r.Intn(25)
 		next := 1
 		nDom := 1 + r.Intn(4)
+		// how often the next hop loses the connection (421 / drop / time-out) instead of answering
+		lossy := []int{0, 15, 40, 70}[r.Intn(4)]
+		pool := []int{0, 0, 2, 10}[r.Intn(4)]
+		if pool != 0 {
+			ok = c.exec(fmt.Sprintf("p.%d", pool))
+		}
+		loss := func() string { return r.Pick("421", "421c", "drop", "tmo") }
+		end := func() string {
+			how := r.Pick("abort", "commit", "bodyfail")
+			if r.Chance(lossy) {
+				how = "body" + loss()
+			}
+			if how != "abort" && r.Chance(50) {
+				how += "." + r.Pick("commit", "abort")
+			}
+			return how
+		}
 		for i := 0; i < n && ok; i++ {
 			var ids []int
 			for k := 1; k < next; k++ {
@@ -328,31 +550,56 @@ func c11RemRun(out *vh.Out, t *testing.T, cfg vlim.Cfg, r *vh.Rng, fixed []strin
 				if r.Chance(10) {
 					dom = 0
 				}
-				ok = c.exec(fmt.Sprintf("s.%d.%d.%d", next, 1+r.Intn(3), dom))
+				flag := ""
+				if x := r.Intn(100); x < 8 {
+					flag = ".so"
+				} else if x < 13 {
+					flag = ".rt"
+				}
+				ok = c.exec(fmt.Sprintf("s.%d.%d.%d%s", next, 1+r.Intn(3), dom, flag))
 				next++
 			case x < 75:
 				id := ids[r.Intn(len(ids))]
 				dd := 1 + r.Intn(nDom)
 				co, mo := 1, 1
-				if r.Chance(12) {
-					dd, co = 500+r.Intn(3), 0
+				note := ""
+				if c.ds[id].rt {
+					co = 0
+					if r.Chance(30) {
+						dd = 500 + r.Intn(3)
+					}
+				} else if r.Chance(12) {
+					if pool == 0 && r.Chance(lossy) {
+						// reachable domain, connection dead before the greeting (only without a pool: a pooled
+						// connection would be used without dialling)
+						co, note = 0, "."+r.Pick("conndrop", "conntmo")
+					} else {
+						dd, co = 500+r.Intn(3), 0
+					}
 				}
 				if r.Chance(25) {
 					mo = 0
+					if co == 1 && r.Chance(lossy) {
+						note = ".mail" + loss()
+					}
 				}
-				note := ""
-				if co == 1 && mo == 1 && r.Chance(15) {
-					note = ".rcptrej"
+				if co == 1 && mo == 1 {
+					switch {
+					case r.Chance(lossy):
+						note = ".rcpt" + loss()
+					case r.Chance(15):
+						note = ".rcptrej"
+					}
 				}
 				ok = c.exec(fmt.Sprintf("a.%d.%d.%d.%d%s", id, dd, co, mo, note))
 			default:
 				id := ids[r.Intn(len(ids))]
-				ok = c.exec(fmt.Sprintf("x.%d.%s", id, r.Pick("abort", "commit", "bodyfail")))
+				ok = c.exec(fmt.Sprintf("x.%d.%s", id, end()))
 			}
 		}
 		for k := 1; k < next && ok; k++ {
 			if c.ds[k] != nil {
-				ok = c.exec(fmt.Sprintf("x.%d.%s", k, r.Pick("abort", "commit", "bodyfail")))
+				ok = c.exec(fmt.Sprintf("x.%d.%s", k, end()))
 			}
 		}
 	}
@@ -439,6 +686,13 @@ func c11RemConcCase(out *vh.Out, t *testing.T, be *c11Backend, cfg vlim.Cfg, see
 		return
 	}
 	tgt := c11Target(t, g)
+	// derived from the seed, so that the op line stays replayable: pool on/off, how often the next hop loses
+	// the connection (421 / drop / time-out) at MAIL, RCPT, DATA
+	cr := vh.NewRng(seed*77 + 5)
+	tgt.connReuseLimit = []int{0, 2, 10}[cr.Intn(3)]
+	lossy := []int{0, 20, 50}[cr.Intn(3)]
+	out.Stat(fmt.Sprintf("remconc:pool:%d:lossy:%d", tgt.connReuseLimit, lossy))
+	modes := []int32{c11F421, c11F421c, c11Drop, c11Tmo}
 	var mu sync.Mutex
 	hold := [4]map[int]int{{}, {}, {}, {}}
 	viol := ""
@@ -485,8 +739,19 @@ func c11RemConcCase(out *vh.Out, t *testing.T, be *c11Backend, cfg vlim.Cfg, see
 				dests := map[int]bool{}
 				for j := r.Intn(3); j > 0; j-- {
 					dd := 1 + r.Intn(nDom)
-					be.rejectMail.Store(r.Chance(20))
-					if err := d.AddRcpt(ctx, "rcpt@"+c11rDom(dd), smtp.RcptOptions{}); err != nil {
+					mm := c11OK
+					if r.Chance(20) {
+						mm = c11Rej
+						if r.Chance(lossy) {
+							mm = modes[r.Intn(4)]
+						}
+					}
+					be.mailMode.Store(mm)
+					local := "rcpt"
+					if r.Chance(lossy) {
+						local += r.Pick("421", "421c", "drop", "tmo", "rej")
+					}
+					if err := d.AddRcpt(ctx, local+"@"+c11rDom(dd), smtp.RcptOptions{}); err != nil {
 						atomic.AddInt64(&nRcptFail, 1)
 						continue
 					}
@@ -508,7 +773,11 @@ func c11RemConcCase(out *vh.Out, t *testing.T, be *c11Backend, cfg vlim.Cfg, see
 				case 1:
 					d.Commit(context.Background())
 				default:
-					be.rejectData.Store(r.Bool())
+					dm := []int32{c11OK, c11Rej}[r.Intn(2)]
+					if r.Chance(lossy) {
+						dm = modes[r.Intn(4)]
+					}
+					be.dataMode.Store(dm)
 					hdr := textproto.Header{}
 					hdr.Add("Subject", "c11")
 					if len(dests) > 0 {
